@@ -222,14 +222,60 @@ def _body(ctx):
                   'the indexer does not store every source row under its key, clear its usage flag and pass the row on unchanged')
         run.check(ikey is not None and len(find_stmt('%s = source_key(%s, %s)' % (ikey, irow, irn), il)) == 1, 'R23', where(repo, il),
                   ix.qualname, 'key = source_key(row, row_number)', 'the source key is not rendered from the row and its number')
-        fold = find_stmt('if _new is not None:\n    _cur[_f] = AGGREGATORS[_agg].func(_c, _new)\nelif _f not in _cur:\n    _cur[_f] = None', il)
-        ok = len(fold) == 1 and cur is not None
+        # the fold, path by path over the loop on the field specs: a non-null source value (the empty text for `count`, which counts
+        # rows) is folded into the running value with the aggregate's function; a null one only creates the entry
+        from sa.pathvals import PathValues as _PVf
+        from sa.model import norm_compare as _ncf
+        floops = [l_ for l_ in ast.walk(il) if isinstance(l_, ast.For) and match_expr('fields.items()', l_.iter) is not None
+                  and isinstance(l_.target, ast.Tuple) and len(l_.target.elts) == 2]
+        ok = len(floops) == 1 and cur is not None
+        kinds_f = set()
         if ok:
-            fb = fold[0][1]
-            ok = fb['_cur'] == cur and has_stmt("%s = %s.get(%s)" % (fb['_c'], cur, fb['_f']), il) and \
-                has_stmt("%s = _spec['aggregate']" % fb['_agg'], il) and \
-                (has_stmt("%s = %s.get(_n)" % (fb['_new'], irow), il) or has_stmt("%s = %s[_n]" % (fb['_new'], irow), il)) and \
-                has_stmt("_n = _spec['name']", il)
+            fv_, sv_ = [t_.id for t_ in floops[0].target.elts]
+            for p_ in Enumerator(where=ix.qualname).body_paths(floops[0]):
+                pv_ = _PVf(p_)
+                newx, isnone, member = None, None, None
+                infeasible = False
+                for t_, pol_ in pv_.guards:
+                    t_, pol_ = _ncf(t_, pol_)
+                    b_ = match_expr('__X is None', t_)
+                    if b_ is not None:
+                        if isinstance(b_['__X'], ast.Constant):
+                            if (b_['__X'].value is None) != pol_:
+                                infeasible = True
+                            continue
+                        newx, isnone = b_['__X'], pol_
+                    b_ = match_expr('%s in %s' % (fv_, cur), t_)
+                    if b_ is not None:
+                        member = pol_
+                    b_ = match_expr('%s not in %s' % (fv_, cur), t_)
+                    if b_ is not None:
+                        member = not pol_
+                if infeasible:
+                    continue
+                stores = [c_ for o_, c_ in pv_.stmts if isinstance(c_, ast.Assign) and isinstance(o_.targets[0], ast.Subscript)
+                          and pseudo(o_.targets[0].value) == cur and pseudo(o_.targets[0].slice) == fv_]
+                count_path = any(isinstance(t_, ast.Compare) and "'count'" in u(t_) and
+                                 ((isinstance(t_.ops[0], ast.Eq) and pol_) or (isinstance(t_.ops[0], ast.NotEq) and not pol_))
+                                 for t_, pol_ in [_ncf(a_, b2_) for a_, b2_ in pv_.guards])
+                if newx is None and count_path:
+                    # count: the value folded is the constant '' (never None)
+                    okp = len(stores) == 1 and match_expr("AGGREGATORS[%s['aggregate']].func(%s.get(%s), '')" % (sv_, cur, fv_), stores[0].value) is not None
+                    kinds_f.add('count')
+                elif isnone is False:
+                    src_ok = match_expr("%s.get(%s['name'])" % (irow, sv_), newx) is not None or match_expr("%s[%s['name']]" % (irow, sv_), newx) is not None
+                    okp = src_ok and len(stores) == 1 and stores[0].value is not None and \
+                        match_expr("AGGREGATORS[%s['aggregate']].func(%s.get(%s), __N)" % (sv_, cur, fv_), stores[0].value) is not None and \
+                        u(match_expr("AGGREGATORS[%s['aggregate']].func(%s.get(%s), __N)" % (sv_, cur, fv_), stores[0].value)['__N']) == u(newx)
+                    kinds_f.add('value')
+                elif isnone is True:
+                    okp = (len(stores) == 1 and isinstance(stores[0].value, ast.Constant) and stores[0].value.value is None) if member is False \
+                        else (not stores and member is True)
+                    kinds_f.add('null')
+                else:
+                    okp = False
+                ok = ok and okp
+            ok = ok and {'value', 'null'} <= kinds_f
         run.check(ok, 'R23', where(repo, il), ix.qualname,
                   'current[field] = AGGREGATORS[spec aggregate].func(current.get(field), row.get(spec name)) for non-null values',
                   'aggregates are not folded over exactly the non-null source values of the matching key')
